@@ -116,7 +116,8 @@ class Bin(Factory, Container):
             nanflow,
         )
         out.entries = float(entries)
-        out.values = values
+        # always a list, whatever sequence was handed over: += assigns to its items and == compares it with other lists
+        out.values = list(values)
         out.contentType = values[0].name
         return out.specialize()
 
